@@ -87,11 +87,16 @@ pub fn answer(e: &Engine, q: &(String, String, String, String)) -> String {
 pub fn seq_table() -> Vec<String> {
     let e = engine();
     let qs = queries();
-    // twice, so that both first use and use after discard are covered
+    // the reference: an engine that never discards a compiled regex (default policy), every query asked once
+    let mut calm = engine();
+    calm.set_regex_discard_policy(RegexManagerDiscardPolicy::default());
+    let reference: Vec<String> = qs.iter().map(|q| answer(&calm, q)).collect();
+    // the engine under test discards after every query: twice, so that first use and use after a discard are covered
     let a: Vec<String> = qs.iter().map(|q| answer(&e, q)).collect();
     let b: Vec<String> = qs.iter().map(|q| answer(&e, q)).collect();
+    assert_eq!(a, reference, "sequential answers under an aggressive discard policy differ from a never-discarding engine");
     assert_eq!(a, b, "sequential answers are not stable");
-    a
+    reference
 }
 
 /// a panic in the code under test is data: the table then carries the panic text
